@@ -44,6 +44,13 @@ func genSpec(r rng, flavor string, withCb bool) cacheSpec {
 	} else if sp.Ctor == "New" && sp.OptMask&4 != 0 && r.chance(0.5) {
 		sp.OptMask &^= 4
 	}
+	if sp.Ctor == "New" && sp.OptMask != 0 && r.chance(0.3) {
+		// an option list in which earlier options are overridden by later ones
+		sp.PreMask = sp.OptMask & r.between(1, 15)
+		sp.PreDefExp = pick(r, []time.Duration{250 * time.Millisecond, time.Hour, 1, 0, -5 * time.Second})
+		sp.PreInterval = pick(r, []time.Duration{0, 0, -1})
+		sp.PreMinCap = pick(r, []int{0, 7, 3000})
+	}
 	return sp
 }
 
